@@ -26,7 +26,7 @@ os.environ.pop("YAW_NUM_THREADS", None)
 
 ENGINES = {
     "C02": "fakemp", "C03": "fakemp", "C05": "fakemp", "C09": "fakemp", "C12": "fakemp",
-    "C16": "fakemp", "C18": "fakemp", "C06": "fakempi", "C07": "history", "C08": "crashfs",
+    "C16": "history", "C18": "fakemp", "C06": "fakempi", "C07": "history", "C08": "crashfs",
 }
 
 
